@@ -2,6 +2,8 @@ from typing import Callable, TypeVar
 import threading
 import functools
 
+from ._verif import point
+
 
 C = TypeVar("C", bound=Callable)
 
@@ -24,11 +26,14 @@ def exclusive(via=threading.Lock) -> Callable[[C], C]:
         @functools.wraps(fnc)
         def exclusive_call(*args, **kwargs):
             if fnc_guard.acquire(blocking=False):
+                point("guard.acquire", ok=True)
                 try:
                     return fnc(*args, **kwargs)
                 finally:
                     fnc_guard.release()
+                    point("guard.release")
             else:
+                point("guard.acquire", ok=False)
                 raise RuntimeError("exclusive call to %s violated")
 
         return exclusive_call
